@@ -420,3 +420,74 @@ Proof.
   - unfold calls. repeat constructor; cbn [call_ok]; lia.
   - vm_compute. split; reflexivity.
 Qed.
+
+(* ------------------------------------------------------------------ *)
+(** * the RTH conversion *)
+Theorem conversion_refines_spec : forall e start bytes,
+  rth_to_trajectory e start = Ok bytes ->
+  exists T, bytes = encode_traj T /\ wf_straj T = true /\ Forall linear_seg (st_segs T) /\
+            close_to (st_scale T) (end_of T) (rth_final_target e start).
+Proof.
+  intros e start bytes H. unfold rth_to_trajectory in H. cbv zeta in H. unfold fnum_add in H.
+  apply BP.bind_ok in H. destruct H as (s1 & Hs1 & H).
+  apply BP.bind_ok in H. destruct H as (s2 & Hs2 & H).
+  apply BP.bind_ok in H. destruct H as (s3 & Hs3 & H).
+  apply BP.bind_ok in H. destruct H as (s4 & Hs4 & H).
+  apply BP.bind_ok in H. destruct H as (d0 & Hd0 & H).
+  apply BP.bind_ok in H. destruct H as (b0 & Hb0 & H).
+  apply BP.bind_ok in H. destruct H as (b1 & Hb1 & H).
+  apply BP.bind_ok in H. destruct H as (b2 & Hb2 & H).
+  apply BP.bind_ok in H. destruct H as ([b3 tgt] & Hb3 & H).
+  apply BP.bind_ok in H. destruct H as (b4 & Hb4 & H).
+  apply BP.bind_ok in H. destruct H as (b5 & Hb5 & H).
+  injection H as <-. unfold finish. cbn [fst].
+  assert (P1 : 0 <= s1) by (eapply BP.scale_update_nonneg; [|exact Hs1]; lia).
+  assert (P2 : 0 <= s2) by (eapply BP.opt_scale_nonneg; [|exact Hs2]; exact P1).
+  assert (P3 : 0 <= s3) by (eapply BP.opt_scale_nonneg; [|exact Hs3]; exact P2).
+  assert (P4 : 0 <= s4) by (eapply BP.opt_scale_nonneg; [|exact Hs4]; exact P3).
+  destruct (builder_init_builds _ _ _ Hb0 P4) as (Hsc0 & Hs0 & B0).
+  destruct (set_start_builds _ _ _ _ Hsc0 B0 Hb1) as (T1 & B1 & L1 & S1 & _).
+  assert (Hsc1 : 0 < bb_scale b1 < 128) by (rewrite S1; exact Hsc0).
+  destruct (hold_builds _ _ _ _ Hsc1 B1 Hb2) as (T2 & B2 & L2 & S2 & _).
+  assert (Hsc2 : 0 < bb_scale b2 < 128) by (rewrite S2; exact Hsc1).
+  (* neck *)
+  assert (Hn : exists T3, builds b3 T3 /\ bb_last b3 = rth_neck_target e start /\ bb_scale b3 = bb_scale b2 /\
+                          tgt = rth_neck_target e start).
+  { unfold rth_neck_target.
+    destruct (negb (Qeq_bool (re_neck e) 0) || fnonzero (re_neck_duration e)).
+    - apply BP.bind_ok in Hb3. destruct Hb3 as (dn & Hdn & Hb3).
+      apply BP.bind_ok in Hb3. destruct Hb3 as (b' & Hb' & Hb3). injection Hb3 as -> <-.
+      pose proof (BP.msec_of_sec_nonneg _ _ Hdn) as Nn.
+      destruct (append_line_builds _ _ _ _ _ Hsc2 Nn B2 Hb') as (T3 & B3 & L3 & S3 & _).
+      exists T3. split; [exact B3|]. split; [exact L3|]. split; [exact S3|reflexivity].
+    - injection Hb3 as <- <-. exists T2. split; [exact B2|]. split; [congruence|]. split; reflexivity. }
+  destruct Hn as (T3 & B3 & L3 & S3 & ->).
+  assert (Hsc3 : 0 < bb_scale b3 < 128) by (rewrite S3; exact Hsc2).
+  (* action *)
+  assert (Ha : exists T4, builds b4 T4 /\ bb_last b4 = rth_final_target e start /\ bb_scale b4 = bb_scale b3).
+  { unfold rth_final_target. cbv zeta.
+    destruct (re_action e =? SB_RTH_ACTION_LAND).
+    - injection Hb4 as <-. exists T3. split; [exact B3|]. split; [exact L3|reflexivity].
+    - destruct (re_action e =? SB_RTH_ACTION_GO_TO_KEEPING_ALTITUDE).
+      + apply BP.bind_ok in Hb4. destruct Hb4 as (d & Hd & Hb4).
+        pose proof (BP.msec_of_sec_nonneg _ _ Hd) as Nd.
+        destruct (append_line_builds _ _ _ _ _ Hsc3 Nd B3 Hb4) as (T4 & B4 & L4 & S4 & _).
+        exists T4. split; [exact B4|]. split; [exact L4|exact S4].
+      + destruct (re_action e =? SB_RTH_ACTION_GO_TO_WITH_ALTITUDE); [|discriminate Hb4].
+        apply BP.bind_ok in Hb4. destruct Hb4 as (d & Hd & Hb4).
+        pose proof (BP.msec_of_sec_nonneg _ _ Hd) as Nd.
+        destruct (append_line_builds _ _ _ _ _ Hsc3 Nd B3 Hb4) as (T4 & B4 & L4 & S4 & _).
+        exists T4. split; [exact B4|]. split; [exact L4|exact S4]. }
+  destruct Ha as (T4 & B4 & L4 & S4).
+  assert (Hsc4 : 0 < bb_scale b4 < 128) by (rewrite S4; exact Hsc3).
+  (* post-delay *)
+  assert (Hp : exists T5, builds b5 T5 /\ bb_last b5 = rth_final_target e start).
+  { destruct (fgt0 (re_post_delay e)).
+    - apply BP.bind_ok in Hb5. destruct Hb5 as (d & Hd & Hb5).
+      destruct (hold_builds _ _ _ _ Hsc4 B4 Hb5) as (T5 & B5 & L5 & S5 & _).
+      exists T5. split; [exact B5|congruence].
+    - injection Hb5 as <-. exists T4. split; assumption. }
+  destruct Hp as (T5 & (E5 & W5 & Sc5 & Lin5 & C5) & L5).
+  exists T5. split; [exact E5|]. split; [exact W5|]. split; [exact Lin5|].
+  rewrite Sc5, <- L5. exact C5.
+Qed.
